@@ -20,6 +20,8 @@ SKernels == {SKA, SKB, SKC, SKD}
 SKernelsB == {SKB}
 NoDev == {}
 AsImplemented == {"MixedBatchPanics"}
+ParkedDev == {"CompleteIgnoresParked"}
+SKernelsP == {SKB, SKC}
 
 WGsOf(ids) == {<<maps[m].k, maps[m].w>> : m \in ids}
 
